@@ -131,6 +131,9 @@ pub fn run(cases_path: &str, out_path: &str, tier: &str, seed: u64) {
     let k6 = gen_key(seed ^ 0xC16, true, &Alg::Ed25519, Some(&EncAlg::X25519), "c15 v6").expect("keygen");
     let p4 = k4.to_public_key();
     let p6 = k6.to_public_key();
+    // other people's certificates (the certified party of a third-party certification)
+    let p4b = gen_key(seed ^ 0xC17, false, &Alg::Ed25519Legacy, None, "c15 other v4").expect("keygen").to_public_key();
+    let p6b = gen_key(seed ^ 0xC18, true, &Alg::Ed25519, None, "c15 other v6").expect("keygen").to_public_key();
     let bk4 = gen_with_signing_subkey(seed ^ 0xB4, false);
     let bk6 = gen_with_signing_subkey(seed ^ 0xB6, true);
     let other4 = gen_with_signing_subkey(seed ^ 0xD4, false);
@@ -143,14 +146,15 @@ pub fn run(cases_path: &str, out_path: &str, tier: &str, seed: u64) {
         let ci = c["ci"].clone();
         let expect = c["expect"].as_str().unwrap_or("");
         match kind {
-            "esk" | "sessionkey" => {
+            "esk" | "esk2" | "sessionkey" => {
                 nontrivial.fetch_add(1, std::sync::atomic::Ordering::Relaxed);
                 let cont = c["container"].as_str().unwrap();
                 let r = (|| -> Result<Out<Vec<u8>>, String> {
                     let mut bytes = Vec::new();
                     let mut ring = TheRing { decrypt_options: opts(&c["options"]), ..Default::default() };
-                    if kind == "esk" {
+                    if kind == "esk" || kind == "esk2" {
                         bytes.extend(esk_packet(c["esk"].as_str().unwrap(), &k4, &k6, seed)?);
+                        if kind == "esk2" { bytes.extend(esk_packet(c["esk2"].as_str().unwrap(), &k4, &k6, seed ^ 0x22)?); }
                         // present every secret the recipient holds: an ESK that must be ignored stays ignored
                         ring.secret_keys = vec![&k4, &k6];
                         ring.message_password = vec![&pw];
@@ -168,7 +172,7 @@ pub fn run(cases_path: &str, out_path: &str, tier: &str, seed: u64) {
                 match r {
                     Ok(o) => {
                         let got = class(&o);
-                        sink.put(rec(&format!("c15.{kind}"), json!({"ci": ci, "case": c}), got == expect, kind, json!({"got": got, "detail": o.detail()})));
+                        sink.put(rec(&format!("c15.{kind}"), json!({"ci": ci, "case": c}), got == expect || (expect == "dontcare" && got != "panic"), kind, json!({"got": got, "detail": o.detail()})));
                     }
                     Err(e) => sink.put(rec(&format!("c15.{kind}"), json!({"ci": ci, "case": c}), false, "construct", json!({"detail": e}))),
                 }
@@ -224,6 +228,16 @@ pub fn run(cases_path: &str, out_path: &str, tier: &str, seed: u64) {
                             let uid = UserId::from_str(PacketHeaderVersion::New, "alignment <a@example.org>").map_err(e)?;
                             let sig = mk(SignatureType::CertPositive).and_then(|c| c.sign_certification(&liar, &pubk.primary_key, &Password::empty(), Tag::UserId, &uid)).map_err(e)?;
                             verdict(sig.verify_certification(&pubk.primary_key, Tag::UserId, &uid))
+                        }
+                        "third_party_certification_of_v4_key" | "third_party_certification_of_v6_key" => {
+                            let signee = if path.ends_with("v6_key") { &p6b } else { &p4b };
+                            let uid = UserId::from_str(PacketHeaderVersion::New, "someone else <b@example.org>").map_err(e)?;
+                            let sig = mk(SignatureType::CertGeneric).and_then(|c| c.sign_certification_third_party(&liar, &Password::empty(), &signee.primary_key, Tag::UserId, &uid)).map_err(e)?;
+                            let a = verdict(sig.verify_third_party_certification(&signee.primary_key, &pubk.primary_key, Tag::UserId, &uid));
+                            let su = pgp::types::SignedUser::new(uid.clone(), vec![sig]);
+                            let b = verdict(su.verify_third_party(&signee.primary_key, &pubk.primary_key));
+                            if a != b { return Err(format!("construct: entry points disagree ({a} vs {b})")); }
+                            a
                         }
                         "subkey_binding" => {
                             let sub = sec.secret_subkeys[0].public_key();
